@@ -16,6 +16,14 @@ CLAIMS = {
    note="Model: Pure/Spec.v (hand-written; strconv.ParseInt modelled exactly and diffed separately; strconv.ParseFloat an oracle). Result structure read from the Go objects by reflection. Axiom-free."),
 }
 
+import sys
+sys.path.insert(0, ROOT)
+from vcheck import tier1
+for pid, (ref, text, note) in tier1.CLAIMS.items():
+    if os.path.exists(os.path.join(ROOT, "coq", "theories", "Properties", pid + ".v")):
+        CLAIMS[pid] = dict(category="proof", ref=ref, text=text, note=note,
+                           technique="Coq proof over a hand-written step machine + lockstep correspondence with the real code under a controlled scheduler")
+
 def main():
     m = {"version": 1, "setup_cmd": "./setup.sh",
          "hooks": {"guard": "verif",
